@@ -3,6 +3,7 @@ package rules
 import (
 	"fmt"
 	"go/token"
+	"go/types"
 	"strings"
 
 	"golang.org/x/tools/go/ssa"
@@ -32,27 +33,14 @@ func init() {
 		}
 		// WAKEUP 1: every path of Push from a slot store to a return passes Broadcast
 		r.Rule("C16/WAKEUP", "a waiting consumer is always woken: Push broadcasts after storing a slot, Close broadcasts after setting closed, and Wait sits in a loop that re-tests the slot and the closed flag under the mutex", 4)
-		nslot := 0
-		for _, b := range push.Blocks {
-			for _, in := range b.Instrs {
-				st, ok := in.(*ssa.Store)
-				if !ok {
-					continue
-				}
-				if _, isIdx := st.Addr.(*ssa.IndexAddr); !isIdx {
-					continue
-				}
-				nslot++
-				found, path, _ := core.PathAvoiding(push, st, core.IsReturn, isBroadcast)
-				if found {
-					r.FailPath("C16/WAKEUP", "RingBuffer.Push broadcast after slot store", p.Pos(st.Pos()), "Push can store an item and return without cond.Broadcast: a consumer blocked in Wait is never woken", core.BlockPath(p, push, path))
-				} else {
-					r.OK("C16/WAKEUP", "RingBuffer.Push broadcast after slot store", p.Pos(st.Pos()), "every path from the slot store to a return passes cond.Broadcast")
-				}
-			}
-		}
-		if nslot == 0 {
+		pp := c16PushPaths(p, push)
+		switch {
+		case pp.nStore == 0:
 			r.Fail("C16/WAKEUP", "RingBuffer.Push slot store", "", "no slot store found in Push")
+		case pp.noBroadcast != "":
+			r.Fail("C16/WAKEUP", "RingBuffer.Push broadcast after slot store", pp.noBroadcast, "Push can store an item and return without cond.Broadcast: a consumer blocked in Wait is never woken")
+		default:
+			r.OK("C16/WAKEUP", "RingBuffer.Push broadcast after slot store", p.Pos(push.Pos()), fmt.Sprintf("on each of the %d paths of Push (helpers walked in place) that store a slot, cond.Broadcast follows before the return", pp.nStore))
 		}
 		// WAKEUP 2: Close: store closed=true, then Broadcast on every path
 		closedF := p.Field(rbPkg, "RingBuffer", "closed")
@@ -106,15 +94,10 @@ func init() {
 				ls := core.LockStates(pull, core.LockSet{})[in]
 				held := ls.Holds(core.PathOf(pull.Params[0])+".mutex", true)
 				// (c) no return reachable from Wait without re-reading the slot (a load through IndexAddr)
-				reread := func(x ssa.Instruction) bool {
-					u, ok := x.(*ssa.UnOp)
-					if !ok || u.Op != token.MUL {
-						return false
-					}
-					_, isIdx := u.X.(*ssa.IndexAddr)
-					return isIdx
-				}
-				noRetest, path, _ := core.PathAvoiding(pull, in, core.IsReturn, reread)
+				// (c) no return after Wait before the slot has been read again: decided on the paths of Pull
+				// (methods of the ring walked in place, each loop followed once around, a condition
+				// tested twice taking the same edge both times)
+				noRetest, path := c16PullRetest(pull, in), []int(nil)
 				ok := inLoop && held && !noRetest
 				det := fmt.Sprintf("in loop=%v, mutex held at Wait=%v, slot re-tested before any return=%v", inLoop, held, !noRetest)
 				if ok {
@@ -130,53 +113,24 @@ func init() {
 
 		// REFUSAL: Push returns false only on the edge where the slot at writeIndex is occupied
 		r.Rule("C16/REFUSAL", "Push refuses (returns false) only when the slot at writeIndex is occupied, tested under the mutex; it returns true only after storing the item", 2)
-		for _, ret := range core.Returns(push) {
-			v, isB := boolConst(ret.Results[0])
-			if !isB {
-				r.Fail("C16/REFUSAL", "RingBuffer.Push return value", p.Pos(ret.Pos()), "Push returns a non-constant: the refusal rule cannot be decided")
-				continue
-			}
-			if !v {
-				ok := false
-				for _, cd := range core.Conds(ret.Block()) {
-					bo, isBo := cd.V.(*ssa.BinOp)
-					if !isBo {
-						continue
-					}
-					// slot != nil true, or slot == nil false
-					if (bo.Op == token.NEQ && cd.Pol || bo.Op == token.EQL && !cd.Pol) && (isNilConst(bo.Y) || isNilConst(bo.X)) {
-						slot := bo.X
-						if isNilConst(bo.X) {
-							slot = bo.Y
-						}
-						if u, isU := slot.(*ssa.UnOp); isU {
-							if ia, isIA := u.X.(*ssa.IndexAddr); isIA && core.PathOf(ia.Index) == core.PathOf(push.Params[0])+".writeIndex" {
-								// tested under the lock
-								ls := core.LockStates(push, core.LockSet{})[u]
-								if ls.Holds(core.PathOf(push.Params[0])+".mutex", true) {
-									ok = true
-								}
-							}
-						}
-					}
-				}
-				r.Check(ok, "C16/REFUSAL", "RingBuffer.Push return false", p.Pos(ret.Pos()), "refusal only on the occupied-slot edge, tested under the mutex", "Push can return false on a path that is not the 'slot at writeIndex is occupied (tested under the mutex)' edge")
-			} else {
-				// return true only after a slot store
-				found, path, _ := core.PathAvoiding(push, nil, func(x ssa.Instruction) bool { return x == ssa.Instruction(ret) }, func(x ssa.Instruction) bool {
-					st, ok := x.(*ssa.Store)
-					if !ok {
-						return false
-					}
-					_, isIdx := st.Addr.(*ssa.IndexAddr)
-					return isIdx
-				})
-				if found {
-					r.FailPath("C16/REFUSAL", "RingBuffer.Push return true", p.Pos(ret.Pos()), "Push can report acceptance without storing the item", core.BlockPath(p, push, path))
-				} else {
-					r.OK("C16/REFUSAL", "RingBuffer.Push return true", p.Pos(ret.Pos()), "acceptance only after the slot store")
-				}
-			}
+		switch {
+		case pp.unknownRet != "":
+			r.Fail("C16/REFUSAL", "RingBuffer.Push return value", pp.unknownRet, "Push returns a value that the path does not determine: the refusal rule cannot be decided")
+		case pp.nFalse == 0:
+			r.Fail("C16/REFUSAL", "RingBuffer.Push return false", p.Pos(push.Pos()), "Push never refuses: a full ring overwrites or blocks")
+		case pp.badFalse != "":
+			r.Fail("C16/REFUSAL", "RingBuffer.Push return false", pp.badFalse, "Push can return false on a path that is not the 'slot at writeIndex is occupied (tested under the mutex)' edge")
+		default:
+			r.OK("C16/REFUSAL", "RingBuffer.Push return false", p.Pos(push.Pos()), fmt.Sprintf("refusal only on the occupied-slot edge, tested under the mutex (%d paths)", pp.nFalse))
+		}
+		switch {
+		case pp.unknownRet != "":
+		case pp.nTrue == 0:
+			r.Fail("C16/REFUSAL", "RingBuffer.Push return true", p.Pos(push.Pos()), "Push never accepts")
+		case pp.badTrue != "":
+			r.Fail("C16/REFUSAL", "RingBuffer.Push return true", pp.badTrue, "Push can report acceptance without storing the item")
+		default:
+			r.OK("C16/REFUSAL", "RingBuffer.Push return true", p.Pos(push.Pos()), fmt.Sprintf("acceptance only after the slot store (%d paths)", pp.nTrue))
 		}
 
 		// CLOSE-DISCARD: nothing is handed out after Close: either Pull tests closed before handing out data, or Close clears every slot
@@ -213,8 +167,13 @@ func init() {
 				r.OK("C16/SINGLE-CONSUMER", "the consumer loop is the spawned function itself", p.Pos(run.Pos()), fnShort(run))
 			}
 			onlyCaller(c, "C16/SINGLE-CONSUMER", run, []*ssa.Function{start})
-			// Start: running = true dominates the go statement
-			runningF := p.Field(apPkg, "Processor", "running")
+			// Start: a "started" marker — a field of the processor set to a constant on every path before
+			// the go statement (running = true, or a lifecycle phase) — dominates the spawn
+			type marker struct {
+				f *types.Var
+				k string
+			}
+			var markers []marker
 			var goIn ssa.Instruction
 			for _, b := range start.Blocks {
 				for _, in := range b.Instrs {
@@ -226,19 +185,77 @@ func init() {
 			if goIn == nil {
 				r.Fail("C16/SINGLE-CONSUMER", "Processor.Start spawns run", p.Pos(start.Pos()), "no `go w.run()` in Start")
 			} else {
-				found, _, _ := core.PathAvoiding(start, nil, func(x ssa.Instruction) bool { return x == goIn }, func(x ssa.Instruction) bool {
-					st, ok := x.(*ssa.Store)
-					if !ok {
-						return false
+				for _, b := range start.Blocks {
+					for _, in := range b.Instrs {
+						st, ok := in.(*ssa.Store)
+						if !ok {
+							continue
+						}
+						fa, ok := st.Addr.(*ssa.FieldAddr)
+						k, isK := st.Val.(*ssa.Const)
+						if !ok || !isK || k.Value == nil || fa.X != ssa.Value(start.Params[0]) {
+							continue
+						}
+						f, kv := core.FieldOfAddr(fa), k.Value.ExactString()
+						skipped, _, _ := core.PathAvoiding(start, nil, func(x ssa.Instruction) bool { return x == goIn }, func(x ssa.Instruction) bool {
+							s2, ok := x.(*ssa.Store)
+							if !ok {
+								return false
+							}
+							fa2, ok := s2.Addr.(*ssa.FieldAddr)
+							k2, isK2 := s2.Val.(*ssa.Const)
+							return ok && isK2 && k2.Value != nil && core.FieldOfAddr(fa2) == f && k2.Value.ExactString() == kv
+						})
+						if !skipped {
+							markers = append(markers, marker{f, kv})
+						}
 					}
-					fa, ok := st.Addr.(*ssa.FieldAddr)
-					if !ok || core.FieldOfAddr(fa) != runningF {
-						return false
+				}
+			}
+			// markerEdge: for a condition of Close over a marker field, the successor taken when the
+			// field holds the value Start gave it (nil when the condition is not about a marker)
+			markerEdge := func(a *ssa.BasicBlock) *ssa.BasicBlock {
+				iff, ok := a.Instrs[len(a.Instrs)-1].(*ssa.If)
+				if !ok || len(a.Succs) != 2 {
+					return nil
+				}
+				cond, neg := iff.Cond, false
+				if u, ok := cond.(*ssa.UnOp); ok && u.Op == token.NOT {
+					cond, neg = u.X, true
+				}
+				fieldOf := func(v ssa.Value) *types.Var {
+					if ld, ok := v.(*ssa.UnOp); ok && ld.Op == token.MUL {
+						if fa, ok := ld.X.(*ssa.FieldAddr); ok {
+							return core.FieldOfAddr(fa)
+						}
 					}
-					v, isB := boolConst(st.Val)
-					return isB && v
-				})
-				r.Check(!found, "C16/SINGLE-CONSUMER", "Processor.Start sets running before go", p.Pos(goIn.Pos()), "running = true on every path before the spawn", "the consumer can be spawned without running = true: Close would not wait for it")
+					return nil
+				}
+				val, known := false, false
+				if f := fieldOf(cond); f != nil {
+					for _, m := range markers {
+						if core.SameField(f, m.f) && (m.k == "true" || m.k == "false") {
+							val, known = m.k == "true", true
+						}
+					}
+				} else if bo, ok := cond.(*ssa.BinOp); ok && (bo.Op == token.EQL || bo.Op == token.NEQ) {
+					if f := fieldOf(bo.X); f != nil {
+						if k, isK := bo.Y.(*ssa.Const); isK && k.Value != nil {
+							for _, m := range markers {
+								if core.SameField(f, m.f) {
+									val, known = (k.Value.ExactString() == m.k) == (bo.Op == token.EQL), true
+								}
+							}
+						}
+					}
+				}
+				if !known {
+					return nil
+				}
+				if val != neg {
+					return a.Succs[0]
+				}
+				return a.Succs[1]
 			}
 			// Close: cancel -> buffer.Close -> (<-done iff running)
 			var closeCall, recvDone ssa.Instruction
@@ -260,18 +277,18 @@ func init() {
 				// every path to a return passes buffer.Close()
 				f1, _, _ := core.PathAvoiding(pclose, nil, core.IsReturn, func(x ssa.Instruction) bool { return x == closeCall })
 				// the receive is only skipped on the !running edge
+				usesMarker := false
 				f2, path, _ := core.PathAvoidingE(pclose, nil, core.IsReturn, func(x ssa.Instruction) bool { return x == recvDone }, func(a, b *ssa.BasicBlock) bool {
-					iff, ok := a.Instrs[len(a.Instrs)-1].(*ssa.If)
-					if !ok {
-						return false
-					}
-					if ld, ok := iff.Cond.(*ssa.UnOp); ok && b == a.Succs[1] {
-						if fa, ok := ld.X.(*ssa.FieldAddr); ok && runningF != nil && core.SameField(core.FieldOfAddr(fa), runningF) {
-							return true // not running: nothing to wait for
-						}
+					// the edge a started processor does not take: nothing to wait for
+					if taken := markerEdge(a); taken != nil {
+						usesMarker = true
+						return b != taken
 					}
 					return false
 				})
+				if goIn != nil {
+					r.Check(usesMarker && len(markers) > 0, "C16/SINGLE-CONSUMER", "Processor.Start sets running before go", p.Pos(goIn.Pos()), "a marker field is set on every path before the spawn, and Close skips the join only when the marker does not hold", "the consumer can be spawned without running = true: Close would not wait for it")
+				}
 				// close precedes the wait
 				f3 := !instrDominates(closeCall, recvDone)
 				ok := !f1 && !f2 && !f3
@@ -286,72 +303,16 @@ func init() {
 		// ERROR-ONCE
 		r.Rule("C16/ERROR-ONCE", "a processing error stops the consumer and is reported exactly once: OnError is invoked at one site in the consumer loop, under err != nil, and is followed by return without another Pull", 2)
 		if runInner != nil {
-			var calls []ssa.Instruction
-			onErrF := p.Field(apPkg, "Processor", "OnError")
-			for _, b := range runInner.Blocks {
-				for _, in := range b.Instrs {
-					c, ok := in.(*ssa.Call)
-					if !ok || c.Call.IsInvoke() {
-						continue
-					}
-					if u, ok := c.Call.Value.(*ssa.UnOp); ok {
-						if fa, ok := u.X.(*ssa.FieldAddr); ok && core.FieldOfAddr(fa) == onErrF {
-							calls = append(calls, in)
-						}
-					}
-				}
-			}
-			r.Check(len(calls) == 1, "C16/ERROR-ONCE", "Processor.runInner OnError call sites", p.Pos(runInner.Pos()), "one call site", fmt.Sprintf("%d OnError call sites in runInner", len(calls)))
-			for _, cs := range calls {
-				isPull := func(x ssa.Instruction) bool { return core.IsCallTo(x, core.Abs(rbPkg)+".RingBuffer.Pull") }
-				found, path, _ := core.PathAvoiding(runInner, cs, isPull, nil)
-				if found {
-					r.FailPath("C16/ERROR-ONCE", "Processor.runInner stops after OnError", p.Pos(cs.Pos()), "after reporting an error the consumer can pull again: the error does not stop the queue and may be reported more than once", core.BlockPath(p, runInner, path))
+			eo := c16ErrorOnce(p, runInner)
+			r.Check(eo.sites == 1, "C16/ERROR-ONCE", "Processor.runInner OnError call sites", p.Pos(runInner.Pos()), "one call site", fmt.Sprintf("%d OnError call sites in runInner", eo.sites))
+			if eo.sites > 0 {
+				if eo.pullAfter != "" {
+					r.Fail("C16/ERROR-ONCE", "Processor.runInner stops after OnError", eo.pullAfter, "after reporting an error the consumer can pull again: the error does not stop the queue and may be reported more than once")
 				} else {
-					r.OK("C16/ERROR-ONCE", "Processor.runInner stops after OnError", p.Pos(cs.Pos()), "no Pull reachable after OnError")
+					r.OK("C16/ERROR-ONCE", "Processor.runInner stops after OnError", p.Pos(runInner.Pos()), "no Pull reachable after OnError (paths of the consumer loop followed once around, helpers walked in place)")
 				}
 			}
-			// every non-nil error of an item reaches OnError: the call result's err != nil edge leads to OnError before return
-			okErr := false
-			for _, b := range runInner.Blocks {
-				if len(b.Instrs) == 0 {
-					continue
-				}
-				iff, ok := b.Instrs[len(b.Instrs)-1].(*ssa.If)
-				if !ok {
-					continue
-				}
-				bo, ok := iff.Cond.(*ssa.BinOp)
-				if !ok || bo.Op != token.NEQ || !isNilConst(bo.Y) || !isErrorType(bo.X.Type()) {
-					continue
-				}
-				if _, isCall := bo.X.(*ssa.Call); !isCall {
-					continue
-				}
-				// from the true successor every path to return passes OnError
-				first := b.Succs[0].Instrs[0]
-				miss, _, _ := core.PathAvoiding(runInner, nil, core.IsReturn, func(x ssa.Instruction) bool {
-					for _, cs := range calls {
-						if x == cs {
-							return true
-						}
-					}
-					return false
-				})
-				_ = first
-				_ = miss
-				// precise: start inside the true successor
-				missT := pathFromBlockAvoiding(b.Succs[0], core.IsReturn, func(x ssa.Instruction) bool {
-					for _, cs := range calls {
-						if x == cs {
-							return true
-						}
-					}
-					return false
-				})
-				okErr = !missT
-			}
-			r.Check(okErr, "C16/ERROR-ONCE", "Processor.runInner reports item errors", p.Pos(runInner.Pos()), "the err != nil edge of the item call leads to OnError before return", "an item error can be dropped without OnError")
+			r.Check(eo.errTests > 0 && eo.dropped == "", "C16/ERROR-ONCE", "Processor.runInner reports item errors", p.Pos(runInner.Pos()), "the err != nil edge of the item call leads to OnError before return", "an item error can be dropped without OnError")
 		}
 	}
 }
